@@ -140,7 +140,14 @@ def strat_history(draw, tier, complete_only=False):
                     st.none(), st.none(),
                     st.lists(st.sampled_from(TAGS), max_size=2)
                     .map(" ".join),
-                    st.lists(st.sampled_from(TAGS), max_size=2)))})
+                    st.lists(st.sampled_from(TAGS), max_size=2),
+                    # a set object of the caller's, re-used for several calls
+                    st.lists(st.sampled_from(TAGS), min_size=1, max_size=2,
+                             unique=True).map(
+                        lambda l: {"shared_set": sorted(l)}),
+                    st.lists(st.sampled_from(TAGS), min_size=1, max_size=2,
+                             unique=True).map(
+                        lambda l: {"shared_set": sorted(l)})))})
         elif kind == "value":
             steps.append({
                 "op": "value", "node": draw(st.integers(0, 40)),
@@ -296,12 +303,25 @@ def _do_add(model, bf, step, stats):
                             f["start"] < start + ln:
                         must_reject = "overlaps field %r" % f["name"]
     tags = step["tags"]
+    shared = None
+    if isinstance(tags, dict):
+        # the caller keeps one set object per tag combination and passes it
+        # to every definition that uses this combination
+        key = tuple(tags["shared_set"])
+        pool = model.__dict__.setdefault("shared_sets", {})
+        shared = pool.setdefault(key, set(key))
+        tags = shared
     try:
         with sut("add_field", (ValueError,)):
             scope.add_field(name, length=ln, start_at=start, tags=tags)
         accepted = True
     except ValueError:
         accepted = False
+    if shared is not None:
+        require(shared == set(key), "add_field modified the set of tags "
+                "passed by the caller", {"passed": sorted(key),
+                                         "now": sorted(shared)})
+        tags = sorted(key)
     stats["adds"] += 1
     if must_reject is not None:
         require(not accepted, "an explicit field definition that %s is "
